@@ -79,11 +79,16 @@ class Universe:
             case = self.minvar(F) == k
             lo_c = F & self.bv(self.MW[k]); hi_c = self.remvar_c(F, k)
             qs.append(('top variable %d: decomposition terms equal their closed forms' % k, And(case, Or(self.lo(F) != lo_c, self.hi(F) != hi_c))))
-            qs.append(('top variable %d: |F| = |F without it| + |F with it removed|' % k, And(case, self.popcount(lo_c) + self.popcount(hi_c) != self.popcount(F))))
-        qs.append(('terminals: |{}| = 0, |{{}}| = 1', Or(self.popcount(self.bv(0)) != 0, self.popcount(self.bv(1)) != 1)))
+            # |F| as a mathematical integer (sum of membership bits): z3's arithmetic normaliser decides the re-association at once,
+            # where the equivalent bit-vector adder trees time out at 64 bits
+            qs.append(('top variable %d: |F| = |F without it| + |F with it removed|' % k, self.icard(lo_c) + self.icard(hi_c) != self.icard(F)))
+        qs.append(('terminals: |{}| = 0, |{{}}| = 1', Or(self.icard(self.bv(0)) != 0, self.icard(self.bv(1)) != 1)))
         qs.append(('non-terminal families have a top variable', And(F != 0, F != 1, self.minvar(F) == self.N)))
-        qs.append(('|F| <= 2^N', z3.UGT(self.popcount(F), BitVecVal(1 << self.N, 64))))
+        qs.append(('0 <= |F| <= 2^N (so the usize image of |F| never wraps)', Or(self.icard(F) > (1 << self.N), self.icard(F) < 0)))
         return qs
+
+    def icard(self, X):
+        return z3.Sum([If(z3.Extract(i, i, X) == 1, 1, 0) for i in range(self.W)])
 
     def join(self, A, B):
         """{a ∪ b | a ∈ A, b ∈ B}"""
